@@ -231,6 +231,9 @@ func (p *ParagraphReader) Next() (*Paragraph, error) {
 
 			/* TrimFunc(line[1:], unicode.IsSpace) is identical to calling
 			 * TrimSpace. */
+			if len(paragraph.Order) == 0 {
+				return nil, fmt.Errorf("Bad line: '%s' continues a field, but no field precedes it", line)
+			}
 			line = strings.TrimRightFunc(line[1:], unicode.IsSpace)
 
 			if line == "." {
